@@ -57,7 +57,8 @@ ASSUMPTIONS = [
 
 KINDS_ERR = {
     "tty.tcgetattr": "termios.error", "tty.tcsetattr": "termios.error", "tty.write": "OSError",
-    "tty.tcdrain": "termios.error", "tty.select": "EINTR", "tty.read": "OSError",
+    "tty.tcdrain": "termios.error", "tty.tcflush": "termios.error", "tty.select": "EINTR",
+    "tty.read": "OSError",
     "tty.ioctl": None, "tty.get_size": None, "clock": None, "predicate": "ValueError",
     "out.write": "OSError", "out.flush": "OSError", "sleep": None, "render": "RuntimeError",
     "finalize": "RuntimeError",
